@@ -272,7 +272,13 @@ func (t *FnTrans) unopInstr(x *ssa.UnOp, st *HeapState, reach string) {
 		if p.K == VScalar && !interiorOrLocal(x.X) {
 			t.nilCheck(x.Pos(), reach, p.S)
 		}
-		t.setVal(x, t.load(st, l, reach))
+		lv := t.load(st, l, reach)
+		if g, ok := x.X.(*ssa.Global); ok && lv.K == VScalar && t.W.nonNilErrorGlobal(g) {
+			t.declare("iface.nil", "Iface")
+			t.assume(reach, not(eq(lv.S, "iface.nil")), "package-level error value "+g.Name()+" is never nil")
+			t.globalsUsed[g.Pkg.Pkg.Name()+"."+g.Name()+" (non-nil error)"] = true
+		}
+		t.setVal(x, lv)
 	case token.ARROW:
 		t.note("channel receive: heap havocked")
 		t.replaceState(st, t.havocAll(st))
@@ -420,7 +426,7 @@ func (t *FnTrans) indexInstr(x *ssa.Index, reach string) {
 	case *types.Basic: // string
 		if base.K == VScalar {
 			t.safety("bounds", x.Pos(), reach, t.boundsCond(i, sx(t.strLen(), base.S)))
-			f := t.declareFun("str.at", []string{"Str", t.mode.idxSort()}, t.mode.intSort(8))
+			f := t.declareFun("gstr.at", []string{"Str", t.mode.idxSort()}, t.mode.intSort(8))
 			v := scalar(x.Type(), sx(f, base.S, i))
 			t.assume(reach, t.typeAssume(v), "byte range")
 			t.setVal(x, v)
@@ -481,7 +487,7 @@ func (t *FnTrans) sliceInstr(x *ssa.Slice, st *HeapState, reach string) {
 		lo := get(x.Low, z)
 		hi := get(x.High, ln)
 		t.safety("slice", x.Pos(), reach, and(t.cmpIdx("<=", z, lo), t.cmpIdx("<=", lo, hi), t.cmpIdx("<=", hi, ln)))
-		f := t.declareFun("str.sub", []string{"Str", t.mode.idxSort(), t.mode.idxSort()}, "Str")
+		f := t.declareFun("gstr.sub", []string{"Str", t.mode.idxSort(), t.mode.idxSort()}, "Str")
 		r := sx(f, base.S, lo, hi)
 		t.assume(reach, eq(sx(t.strLen(), r), t.subIdx(hi, lo)), "len(s[lo:hi]) == hi-lo")
 		t.setVal(x, scalar(x.Type(), r))
@@ -691,7 +697,7 @@ func (t *FnTrans) lookup(x *ssa.Lookup, st *HeapState, reach string) {
 		i, ok := t.toIdx(t.val(x.Index))
 		if ok && base.K == VScalar {
 			t.safety("bounds", x.Pos(), reach, t.boundsCond(i, sx(t.strLen(), base.S)))
-			f := t.declareFun("str.at", []string{"Str", t.mode.idxSort()}, t.mode.intSort(8))
+			f := t.declareFun("gstr.at", []string{"Str", t.mode.idxSort()}, t.mode.intSort(8))
 			v := scalar(x.Type(), sx(f, base.S, i))
 			t.assume(reach, t.typeAssume(v), "byte range")
 			t.setVal(x, v)
